@@ -83,7 +83,7 @@ func (ex *Exec) binopTerm(st *State, op token.Token, x, y *Term, ta, tb types.Ty
 	case SString:
 		switch op {
 		case token.ADD:
-			return StrConcat(x, y), true
+			return ex.concat(st, x, y), true
 		case token.EQL:
 			return Eq(x, y), true
 		case token.NEQ:
@@ -518,7 +518,7 @@ func (ex *Exec) bytesToString(st *State, s SliceV) Value {
 	arr := st.heap[s.Obj].(*ArrV)
 	out := StrC("")
 	for i := 0; i < int(s.Len.U); i++ {
-		out = StrConcat(out, StrFromByte(arr.Elems[s.Off+i].(*Term)))
+		out = ex.concat(st, out, StrFromByte(arr.Elems[s.Off+i].(*Term)))
 	}
 	return out
 }
